@@ -322,8 +322,9 @@ func check(src string, ci int, ss *session) (vs []engine.Violation, outcome stri
 	tree.Reset()
 	o := xpx.RunMachine(m, tree.At(contexts[ci]...))
 	got := observed(tree)
-	if ci == 0 {
-		// (on one of the four context positions - a non-root one) the same run with the context's debug listing on asks the data tree the very same questions
+	if ci == 0 && debugToo(src) {
+		// (on one of the four context positions - a non-root one; thorough tier: for the expressions of
+		// the quick tier's size and one in eight of the longer ones, chosen by hash) the same run with the context's debug listing on asks the data tree the very same questions
 		// (a fresh machine: the listing is a diagnostic aid and must not take part in the evaluation)
 		used := strings.Join(tree.CallStrings(), " ; ")
 		if dm, derr := expr.NewExprMachine(src, mapFn); derr == nil {
@@ -424,7 +425,22 @@ func stepForms(maxPreds int, full bool) []string {
 	return out
 }
 
+// debugAll: quick tier - every expression also runs with the debug listing on.
+var debugAll = true
+
+func debugToo(src string) bool {
+	if debugAll || len(src) <= 24 {
+		return true
+	}
+	h := 0
+	for _, c := range src {
+		h = h*31 + int(c)
+	}
+	return h&7 == 0
+}
+
 func run(c *engine.Ctx) {
+	debugAll = c.Quick()
 	roots := []string{"/", "", "current()/", "deref(../r)/", "deref(/r/s)/", "deref(current()/../r)/"}
 	maxSteps, maxPreds := 2, 1
 	if !c.Quick() {
@@ -537,6 +553,15 @@ func run(c *engine.Ctx) {
 				return
 			}
 			exec(strings.ReplaceAll(f, "%s", nm))
+		}
+	}
+	// literal operands that look like numbers: the key value is the literal's text, character for character
+	for _, lit := range []string{"0100", "007", "+1", "-0", "1.0", "1.", ".5", " 1", "1 ", "1e2", "0x10", "9007199254740993", "00", "-", "1_0", "١٢"} {
+		for _, f := range []string{"/a[k = '%s']/b", "a[k = \"%s\"]", "../b[j = '%s'][k = 7]/c", "/a[k = concat('%s', '')]/b", "deref(../r)/a[k = '%s']"} {
+			if c.Expired() {
+				return
+			}
+			exec(strings.ReplaceAll(f, "%s", lit))
 		}
 	}
 	c.Sample(map[string]any{"expr": "/a/b[k = current()/../x]/c = 'v'", "context": "/top/ctx", "expected_requests": "Navigate(root=0)->/top/x GetValue@/top/x Navigate(root=1)->/a/b[k=/top/x]/c GetValue@..."})
